@@ -216,6 +216,9 @@ func scanEngine(prop, tier string, rng *rand.Rand, replay []json.RawMessage) (*E
 	if len(excluded) > 0 {
 		res.Extra["excluded_recorded_disagreements"] = excluded
 	}
+	if slowRetries > 0 {
+		res.Extra["scans_rerun_because_the_process_stalled"] = slowRetries
+	}
 	res.Extra["harness_seconds"] = time.Since(t0).Seconds()
 	return res, nil
 }
